@@ -89,6 +89,15 @@ def attached_comment_range(text: str, b):
     return [(s, e) for s in starts for e in ends]
 
 
+def multiline_target(text: str) -> bool:
+    tgt = cstread.find_target(cstread.ts_parse(text))
+    if tgt is None or tgt.start_point[0] == tgt.end_point[0]:
+        return False
+    # at least one item, each on its own line
+    bs = [c for c in tgt.named_children if c.type == "binding_set"]
+    return bool(bs) and bs[0].start_point[0] > tgt.start_point[0]
+
+
 def observe(ctx: fw.Ctx, hists):
     for h in hists:
         if h.parse_error:
@@ -186,6 +195,15 @@ def check(ctx, h, r):
                 if p + q < len(before) and before[p: len(before) - q].strip() != "":
                     ctx.fail({"clause": "insert-bytes", **key0}, inp,
                              f"{r.op!r} on canonical {before!r}: bytes outside the inserted text changed: {out!r}")
+                elif not depth and len(names) == 1 and multiline_target(before):
+                    # "the inserted binding line": into a set written one binding per line, whole lines are
+                    # inserted at a line boundary; no existing line is split or joined with the new text
+                    lb, la = before.splitlines(keepends=True), out.splitlines(keepends=True)
+                    nl = len(la) - len(lb)
+                    if not (nl > 0 and any(la[:k] == lb[:k] and la[k + nl:] == lb[k:] for k in range(len(lb) + 1))):
+                        ctx.fail({"clause": "insert-lines", **key0}, inp,
+                                 f"{r.op!r} on canonical {before!r}: the new binding is not inserted as whole line(s), an "
+                                 f"existing line was split or changed: {out!r}")
     else:
         if b is None:
             return
